@@ -119,11 +119,12 @@ ASSUME = ["SimCluster (ref/simcluster.py) is Kafka; no replication (acks -1 beha
 def run(tier, seed, only=None):
     if tier == "quick":
         plans = [("all-configs-1dev", configs(tier), (1, 1, 1)),
+                 ("half-configs-2dev", configs(tier)[::2], (1, 1, 2)),
                  ("core-2dev", core_configs(tier), (2, 1, 2)),
                  ("queued-stop-cancel", queued_configs(tier), (1, 1, 2)),
                  ("persistent-faults", persistent_configs(tier), (0, 1, 1))]
     else:
-        plans = [("all-configs-2dev", configs(tier), (2, 1, 2)),
+        plans = [("all-configs-3dev", configs(tier), (2, 1, 3)),
                  ("core-3dev", core_configs(tier), (2, 2, 3)),
                  ("queued-stop-cancel", queued_configs(tier), (2, 2, 3)),
                  ("persistent-faults", persistent_configs(tier), (1, 1, 2))]
